@@ -17,6 +17,7 @@ import (
 func init() {
 	register(&Prop{ID: "C13", Run: runC13, Replay: map[string]func(*mc.Ctx, json.RawMessage){
 		"query": replayer(c13Eval),
+		"pair":  replayer(c13EvalPair),
 	}})
 }
 
@@ -584,6 +585,7 @@ func runC13(c *mc.Ctx) {
 	})
 	c.Sample("query", cases[len(cases)/3])
 	c.Sample("query", cases[len(cases)-1])
+	runC13Pairs(c)
 }
 
 // c13QuotientLadder: for a parameter pair with M = 140 * 2^P (unary quotients up to 139 for one
